@@ -23,6 +23,8 @@ STR_FULL = ["", "1", "1.0", "true", "false", "null", "no", "on", "~", " ", " a "
             "nan", "inf", ".inf", "1e5", "0x10", "010", "1_000", "+1", "-", "?", ": ", "a: ", " #x", "'", "\"", "\\", "\\n", "%",
             "@a", "`a`", "a\tb", "  two", "two  ", "<![CDATA[x]]>", "<!--c-->", "&amp;", "=", "y", "N", "2001-01-01", "1:30",
             " ", "a" * 200, "|", ">", "﻿x", "x﻿"]
+# what os.fsdecode / sys.argv give for undecodable bytes: a lone surrogate (no UTF-8 encoding, still a str)
+STR_FULL += ["caf\udce9.txt", "\ud800"]
 NUM_FULL = [None, True, False, 0, 1, -1, 2 ** 31, 2 ** 63 - 1, -2 ** 63, 2 ** 64, 10 ** 30, 0.0, -0.0, 1.5, 1e16, 1e-7,
             float("inf"), float("-inf"), float("nan"), 1e300, 5e-324, 0.1 + 0.2, 1234567.891, 100.0, 1e22, 123456789012345680.0,
             # fractional mantissa with an exponent, exponents ending in 0, negative values
@@ -158,7 +160,14 @@ def representable(t, fmt):
     if isinstance(t, list):
         return all(representable(v, fmt) for v in t)
     if isinstance(t, str):
-        return _xml_str(t) if fmt == "xml" else True
+        if fmt == "xml":
+            return _xml_str(t)
+        if fmt == "bson":            # BSON strings are UTF-8: a lone surrogate has no encoding
+            try:
+                t.encode("utf-8")
+            except UnicodeError:
+                return False
+        return True
     if isinstance(t, int) and not isinstance(t, bool) and fmt == "bson":
         return -2 ** 63 <= t <= 2 ** 63 - 1
     return True
